@@ -7,6 +7,7 @@ Where the pinned tree violates the statement the model has a `pinned` and a `rep
 full-strength theorem is about `repaired`, the pinned behaviour gets a proved counterexample.
 -/
 import Tcell.Model.Sim
+import Tcell.Lemmas.Sim
 import Tcell.Props.C17
 namespace Tcell.Props.C18
 open Tcell
@@ -26,14 +27,11 @@ theorem render_spec (v : SimVariant) (enc : Encoder) (s : Sim) (x y : Int) :
 theorem resolve_default (s : Sim) : s.resolve {} = s.style := by simp [Sim.resolve]
 theorem resolve_other (s : Sim) (st : Style) (h : st ≠ {}) : s.resolve st = st := by simp [Sim.resolve, h]
 
-/-- **sim_show_faithful_partial** (per cell): when `draw` reaches a cell that is dirty and on the display, the reported cell
-becomes exactly `render` (runes, resolved style, blank in the last column, bytes), no other reported cell changes, and
-the cell is marked clean unless it is a wide rune in the last column (pinned tree).
-What is missing for the full statement "after Show, every visible cell shows what was last set": the induction over the
-row/column loops of `draw` and over draw histories (clean ⇒ front shows the last content).  The second half is **false** on the
-pinned tree (see `last_column_stale`), and for a style or fallback change after the cell was drawn no redraw happens at all;
-the harness checks the full statement on the real code (oracle `sim-*` classes). -/
-theorem sim_show_faithful_partial (v : SimVariant) (enc : Encoder) (s : Sim) (x y : Int)
+/-- **sim_drawCell_effect** (per cell, every variant — the step lemma behind `sim_show_faithful`; formerly
+`sim_show_faithful_partial`): when `draw` reaches a cell that is dirty and on the display, the reported cell becomes exactly
+`render` (runes, resolved style, blank in the last column, bytes), no other reported cell changes, and the width is
+returned.  (Whether the cell is also marked clean is where the pinned tree differed: `last_column_stale`.) -/
+theorem sim_drawCell_effect (v : SimVariant) (enc : Encoder) (s : Sim) (x y : Int)
     (hd : s.back.dirty x y = true) (hp : s.inPhys x y) :
     ((s.drawCell v enc x y).1.front x y = s.render v enc x y) ∧
     (∀ i j, ¬ (i = x ∧ j = y) → (s.drawCell v enc x y).1.front i j = s.front i j) ∧
@@ -53,6 +51,90 @@ theorem sim_show_faithful_partial (v : SimVariant) (enc : Encoder) (s : Sim) (x 
 theorem drawCell_clean (v : SimVariant) (enc : Encoder) (s : Sim) (x y : Int) (hd : s.back.dirty x y = false) :
     (s.drawCell v enc x y).1 = s := by
   unfold Sim.drawCell; simp [hd]
+
+/-! ### after Show, every visible cell shows what was last set — over all draw histories -/
+
+/-- **sim_show_faithful** (full strength; history induction reusing C08's specification ghost, as C19 `page_faithful`).
+Start from a freshly initialised SimulationScreen (80×25, any fallback map `fb`, any screen style `scr`) and perform ANY
+history of SetContent / Fill / LockRegion steps / Show / Sync / SetSize / ShowCursor / InjectKey / InjectMouse — any
+length, coordinates, sizes, runes, combining lists, styles.  Then every in-range cell that is unlocked and that the
+logical buffer reports clean shows, in the cells `GetContents` reports (`front`), EXACTLY `render` of its logical content:
+by `render_spec` the runes as `GetContent` gives them, the style last set with StyleDefault resolved to the screen style,
+the bytes by the simulator's encoding rules, and a blank for a wide rune in the last column.
+Hypotheses: `RwOk rw` (go-runewidth gives 0 for NUL, 1 for a blank, widths in 0..2); the variant has the two fixes that the
+statement needs — `lastColClean` (/repo 829ffac) and `setSizeEvent` (/repo 3535525) — which the current tree has (the `sim`
+engine probes the five sites and runs the matching model variant; for the pinned variant the statement is false:
+`last_column_stale`); Fill runes are one column wide (`SimOp.ok`, the API contract of `Fill`, cell.go:218).
+Outside the statement, as in C19: `SetStyle` and `RegisterRuneFallback` after a cell was drawn are not retroactive (no
+redraw happens), so the screen style and the fallback map are fixed along the history (`setStyle_not_retroactive`). -/
+theorem sim_show_faithful (rw : Rune → Int) (hrw : RwOk rw) (v : SimVariant) (hv1 : v.lastColClean = true)
+    (hv2 : v.setSizeEvent = true) (enc : Encoder) (fb : RuneMap) (scr : Style) (ops : List SimOp)
+    (hok : ∀ op ∈ ops, op.ok rw) (x y : Int) :
+    let s := ({ Sim.init fb with style := scr } : Sim).runS rw v enc ops
+    s.back.inRange x y → (s.back.cells x y).lock = false → s.back.dirty x y = false →
+    s.front x y = s.render v enc x y := by
+  intro s hr hl hd
+  exact SimL.faithful_of_inv rw v enc fb scr hrw s
+    (SimL.runS_inv rw v enc fb scr hrw hv1 hv2 ops _ hok (SimL.init_inv rw v enc fb scr hrw)) x y hr hl hd
+
+/-- **sim_shown_cells_faithful**: after any such history followed by `Show`, every in-range unlocked position the draw
+walk stopped at (column 0 of every row, then each position plus the reported width of its rune: every cell not hidden
+behind a wide rune) shows `render` of its logical content — "after Show, every visible cell shows what was last set". -/
+theorem sim_shown_cells_faithful (rw : Rune → Int) (hrw : RwOk rw) (v : SimVariant) (hv1 : v.lastColClean = true)
+    (hv2 : v.setSizeEvent = true) (enc : Encoder) (fb : RuneMap) (scr : Style) (ops : List SimOp)
+    (hok : ∀ op ∈ ops, op.ok rw) :
+    let s0 := ({ Sim.init fb with style := scr } : Sim).runS rw v enc ops
+    let s := s0.showScr v enc
+    ∀ q ∈ SimL.showVisits v enc s0, s.back.inRange q.1 q.2 → (s.back.cells q.1 q.2).lock = false →
+      s.front q.1 q.2 = s.render v enc q.1 q.2 := by
+  intro s0 s q hq hr hl
+  have h0 := SimL.runS_inv rw v enc fb scr hrw hv1 hv2 ops _ hok (SimL.init_inv rw v enc fb scr hrw)
+  have hcl := SimL.show_visits_clean rw v enc fb scr hrw hv1 s0 h0 q hq
+  have h1 : SimL.SInv rw v enc fb scr s := SimL.stepS_inv rw v enc fb scr hrw hv1 hv2 s0 .present trivial h0
+  exact SimL.faithful_of_inv rw v enc fb scr hrw s h1 q.1 q.2 hr hl hcl
+
+/-- **sim_show_frame**: a `Show` (no size change pending, no `Sync`) dirties nothing: every cell dirty after it was dirty
+before it — it only draws and marks clean. -/
+theorem sim_show_frame (v : SimVariant) (enc : Encoder) (s : Sim) (hpw : s.physw = s.back.w) (hph : s.physh = s.back.h)
+    (hc : s.clear = false) : ∀ i j, (s.showScr v enc).back.dirty i j = true → s.back.dirty i j = true :=
+  SimL.show_dirtyLe v enc s hpw hph hc
+
+/-- the walk starts every row at column 0 -/
+example (v : SimVariant) (enc : Encoder) (y : Int) (s : Sim) (fuel : Nat) (hw : 0 < s.back.w) :
+    0 ∈ SimL.rowVisits v enc y (fuel + 1) s 0 := by
+  simp [SimL.rowVisits, hw]
+
+/-- a width function satisfying `RwOk` (世 wide, NUL zero-width) -/
+def exRw : Rune → Int := fun r => if r = 0 then 0 else if r = 19990 then 2 else 1
+
+theorem exRw_ok : RwOk exRw := by
+  refine ⟨by decide, by decide, ?_, ?_⟩ <;> intro r <;> unfold exRw <;> split <;> (try split) <;> omega
+
+/-- the hypotheses of `sim_show_faithful` are satisfiable and the statement is not vacuous: on a 3×1 screen, after
+`SetContent(0,0,'A',bold); SetContent(2,0,'世'); Show` the reported cell (0,0) is a bold `A`, the wide rune in the last
+column is reported as a blank, both cells are clean, and a second history step (`Fill(' ')`; `Show`) replaces them -/
+example :
+    let ops := [SimOp.setSize 3 1, .setContent 0 0 65 [] { attrs := 1 }, .setContent 2 0 19990 [] {}, .present]
+    let s := (Sim.init []).runS exRw .repaired C17.exEnc ops
+    let s2 := s.runS exRw .repaired C17.exEnc [.fill 32 {}, .present]
+    (∀ op ∈ ops ++ [.fill 32 {}, .present], op.ok exRw) ∧
+    s.back.dirty 0 0 = false ∧ s.back.dirty 2 0 = false ∧
+    s.front 0 0 = { bytes := [65], style := { attrs := 1 }, runes := [65] } ∧
+    s.front 2 0 = { bytes := [32], style := {}, runes := [32] } ∧
+    s2.front 0 0 = { bytes := [32], style := {}, runes := [32] } := by
+  refine ⟨?_, by decide, by decide, by decide, by decide, by decide⟩
+  intro op h
+  simp at h
+  rcases h with h | h | h | h | h | h <;> subst h <;> simp [SimOp.ok, exRw]
+
+/-- `SetStyle` is not retroactive (why `sim_show_faithful` fixes the screen style): a default-style cell drawn under screen
+style `{}` keeps reporting `{}` after the screen style becomes bold and `Show` runs again — no cell is dirty, nothing is
+redrawn — while `render` under the new style would report bold. -/
+theorem setStyle_not_retroactive :
+    let s := (Sim.init []).runS exRw .repaired C17.exEnc [.setSize 2 1, .setContent 0 0 65 [] {}, .present]
+    let s' := ({ s with style := { attrs := 1 } } : Sim).showScr .repaired C17.exEnc
+    (s'.front 0 0).style = {} ∧ (s'.render .repaired C17.exEnc 0 0).style = { attrs := 1 } ∧ s'.back.dirty 0 0 = false := by
+  decide
 
 /-! ### Bytes: the simulator's rules against the real screen's rules -/
 
